@@ -6,3 +6,18 @@ CHECKS = {
    "trusts the 40-line executable model of the statement; preconditions documented as panicking are not generated; bounded history length (<= 12 ops) and area (<= ~100x100)",
    "DESIGN.md §7 C05"),
 }
+CHECKS["C01"] = ("exploration",
+   "runtime monitoring: generated workbooks in many physical encodings vs reference-model oracle; exhaustive hook sweep of the cell-name parser",
+   "Logical workbooks with unique cell values are written by an independent reference encoder in several random physical encodings (choice vector of every legal variation named in the statement), read back through worksheet_range / worksheet_range_ref under a panic monitor, and compared cell by cell and bound by bound with the model; the cell-name parser is swept exhaustively through a feature-gated hook. Held = no disagreement on the files described in the evidence.",
+   "trusted base: the reference encoder implements ECMA-376/OPC; bounding boxes are kept below ~250k cells because Range is dense",
+   "DESIGN.md §7 C01")
+CHECKS["C09"] = ("exploration",
+   "runtime monitoring: real RangeDeserializer drained step by step vs reference conversion table",
+   "Random ranges x header configurations x 12 compiled target shapes; every record, every error (kind and absolute position) and size_hint at every step are compared with a reference conversion table written from the statement and rustdoc.",
+   "trusts the reference conversion table; header names unique; numeric strings plain decimals",
+   "DESIGN.md §7 C09")
+CHECKS["C11"] = ("exploration",
+   "runtime monitoring: exhaustive whole-day sweep + boundary sampling vs exact-arithmetic civil-from-days oracle",
+   "Every whole-day serial 0..=2958465 in both date systems is converted by the real code and compared with an independent civil-from-days algorithm; fractional serials around millisecond/second/day boundaries, specials (huge, infinite, NaN, negative), durations, plain Int/Float cells, DataRef, ISO strings and the deserialize_as_* helpers are sampled; monotonicity is checked on consecutive days and on sampled pairs.",
+   "trusts chrono for NaiveDate construction/comparison; ties within float error of the ms rounding accept both neighbours; serials in [60,61) only weakly constrained",
+   "DESIGN.md §7 C11")
